@@ -685,38 +685,57 @@ impl Expression {
                             continue;
                         }
                         'x' | 'u' => {
-                            let range = if next == 'x' { 0..2 } else { 0..4 };
                             let pos = ps.position();
                             let ch = ps.try_parse(|ps| {
-                                let mut v = 0;
-                                for _ in range {
-                                    let next = ps.next()?;
-                                    let x = match next {
-                                        '0' => 0,
-                                        '1' => 1,
-                                        '2' => 2,
-                                        '3' => 3,
-                                        '4' => 4,
-                                        '5' => 5,
-                                        '6' => 6,
-                                        '7' => 7,
-                                        '8' => 8,
-                                        '9' => 9,
-                                        'a' | 'A' => 10,
-                                        'b' | 'B' => 11,
-                                        'c' | 'C' => 12,
-                                        'd' | 'D' => 13,
-                                        'e' | 'E' => 14,
-                                        'f' | 'F' => 15,
-                                        _ => {
+                                // `\u{...}`: one to six hex digits
+                                let braced = next == 'u' && ps.peek::<0>() == Some('{');
+                                let mut v: u32 = 0;
+                                if braced {
+                                    ps.next(); // '{'
+                                    let mut count = 0;
+                                    loop {
+                                        let next = ps.next()?;
+                                        if next == '}' && count > 0 {
+                                            break;
+                                        }
+                                        let Some(x) = next.to_digit(16).filter(|_| count < 6) else {
                                             ps.add_warning(
                                                 ParseErrorKind::IllegalEscapeSequence,
                                                 pos..ps.position(),
                                             );
                                             return None;
+                                        };
+                                        v = v * 16 + x;
+                                        count += 1;
+                                    }
+                                } else {
+                                    for _ in 0..(if next == 'x' { 2 } else { 4 }) {
+                                        let next = ps.next()?;
+                                        let Some(x) = next.to_digit(16) else {
+                                            ps.add_warning(
+                                                ParseErrorKind::IllegalEscapeSequence,
+                                                pos..ps.position(),
+                                            );
+                                            return None;
+                                        };
+                                        v = v * 16 + x;
+                                    }
+                                }
+                                // a surrogate pair written as two escapes is one character
+                                if next == 'u' && !braced && (0xD800..0xDC00).contains(&v) {
+                                    let low = ps.try_parse(|ps| {
+                                        if ps.next()? != '\\' || ps.next()? != 'u' {
+                                            return None;
                                         }
-                                    };
-                                    v = v * 16 + x;
+                                        let mut low: u32 = 0;
+                                        for _ in 0..4 {
+                                            low = low * 16 + ps.next()?.to_digit(16)?;
+                                        }
+                                        (0xDC00..0xE000).contains(&low).then_some(low)
+                                    });
+                                    if let Some(low) = low {
+                                        v = 0x10000 + ((v - 0xD800) << 10) + (low - 0xDC00);
+                                    }
                                 }
                                 let Some(ch) = char::from_u32(v) else {
                                     ps.add_warning(
